@@ -4,14 +4,14 @@ writer-side methods. -/
 namespace Netpoll.Buf.Own
 open Netpoll.Buf
 
-theorem expose_refer {cfg : Cfg} {st : Bool} {s s' : Ledger} {i n c : Nat} {nd : NodeS} (hc : Core cfg st s)
+theorem expose_refer {cfg : Cfg} {st : Bool} {s s' : Mem} {i n c : Nat} {nd : NodeS} (hc : Core cfg st s)
     (hn : s.nodes[i]? = some nd)
     (h : (s.setNode i { nd with exposed := true }).refer cfg i n = some (s', c)) : Ext s s' ∧ Core cfg st s' := by
   have c1 := setNode_core (i := i) (nd := { nd with exposed := true }) hc ((hc.node i nd hn).of_same rfl rfl rfl)
   obtain ⟨e2, c2⟩ := refer_spec c1 h
   exact ⟨(setNode_ext _ _ _).trans e2, c2⟩
 
-theorem sliceLoop_typed {cfg : Cfg} {st : Bool} : ∀ (l : List Nat) {s s' : Ledger} {ack k : Nat} {cs : List Nat},
+theorem sliceLoop_typed {cfg : Cfg} {st : Bool} : ∀ (l : List Nat) {s s' : Mem} {ack k : Nat} {cs : List Nat},
     Core cfg st s → sliceLoop cfg s l ack = some (s', cs, k) → Ext s s' ∧ Core cfg st s'
   | [], s, s', ack, k, cs, _, h => by simp [sliceLoop] at h
   | i :: rest, s, s', ack, k, cs, hc, h => by
@@ -42,13 +42,13 @@ theorem sliceLoop_typed {cfg : Cfg} {st : Bool} : ∀ (l : List Nat) {s s' : Led
             cases h
             exact sliceLoop_typed rest hc hl
 
-theorem newBuf_typed {cfg : Cfg} {st : Bool} {s : Ledger} (size : Nat) (hc : Core cfg st s) :
+theorem newBuf_typed {cfg : Cfg} {st : Bool} {s : Mem} (size : Nat) (hc : Core cfg st s) :
     Tri cfg st s (newBuf cfg s size).1 (newBuf cfg s size).2 := by
   obtain ⟨e, c⟩ := newNode_spec (cfg := cfg) (s := s) size hc
   exact ⟨e, c, BufOK.empty rfl rfl⟩
 
 /-- `Slice`: parent as `Tri`; the new reader has no caches -/
-theorem slice_typed {cfg : Cfg} {st : Bool} {s s' : Ledger} {b b' : Buf} {n : Int} {c : Option Buf} (hc : Core cfg st s)
+theorem slice_typed {cfg : Cfg} {st : Bool} {s s' : Mem} {b b' : Buf} {n : Int} {c : Option Buf} (hc : Core cfg st s)
     (hb : BufOK cfg s b) (h : slice cfg s b n = some (s', b', c)) :
     Tri cfg st s s' b' ∧ ∀ cb, c = some cb → BufOK cfg s' cb := by
   unfold slice at h
@@ -90,7 +90,7 @@ theorem slice_typed {cfg : Cfg} {st : Bool} {s s' : Ledger} {b b' : Buf} {n : In
               obtain ⟨e3, cc3, hb3⟩ := releaseCore_typed cc2 hb2 hrel
               exact ⟨⟨e1.trans (e2.trans e3), cc3, hb3⟩, fun cb hcb => by cases hcb; exact BufOK.empty rfl rfl⟩
 
-theorem dropUnexposed_typed {cfg : Cfg} {st : Bool} : ∀ (l : List Nat) {s s' : Ledger} {kept : List Nat},
+theorem dropUnexposed_typed {cfg : Cfg} {st : Bool} : ∀ (l : List Nat) {s s' : Mem} {kept : List Nat},
     Core cfg st s → dropUnexposed cfg s l = some (s', kept) → Ext s s' ∧ Core cfg st s'
   | [], s, s', kept, hc, h => by simp [dropUnexposed] at h; obtain ⟨rfl, _⟩ := h; exact ⟨Ext.refl _, hc⟩
   | i :: rest, s, s', kept, hc, h => by
@@ -110,7 +110,7 @@ theorem dropUnexposed_typed {cfg : Cfg} {st : Bool} : ∀ (l : List Nat) {s s' :
           obtain ⟨e2, c2⟩ := dropUnexposed_typed rest c1 h
           exact ⟨e1.trans e2, c2⟩
 
-theorem readCopy_typed {cfg : Cfg} {st : Bool} {s s' : Ledger} {id : Nat} {b b' : Buf} {l : Nat} (hc : Core cfg st s)
+theorem readCopy_typed {cfg : Cfg} {st : Bool} {s s' : Mem} {id : Nat} {b b' : Buf} {l : Nat} (hc : Core cfg st s)
     (hb : BufOK cfg s b) (h : readCopy cfg s id b l = some (s', b')) : Tri cfg st s s' b' := by
   unfold readCopy at h
   split at h
@@ -147,7 +147,7 @@ theorem readCopy_typed {cfg : Cfg} {st : Bool} {s s' : Ledger} {id : Nat} {b b' 
               cases h
               exact ⟨e14, c4, (((consumeLen_ok _ hb).of_caches_eq k3 k4).ext e14).of_caches_eq rfl rfl⟩
 
-theorem close_typed {cfg : Cfg} {st : Bool} {s s' : Ledger} {id : Nat} {b b' : Buf} (hc : Core cfg st s) (hb : BufOK cfg s b)
+theorem close_typed {cfg : Cfg} {st : Bool} {s s' : Mem} {id : Nat} {b b' : Buf} (hc : Core cfg st s) (hb : BufOK cfg s b)
     (h : close cfg s id b = some (s', b')) : Tri cfg st s s' b' := by
   unfold close at h
   split at h
